@@ -271,6 +271,8 @@ type walker struct {
 	pendingEscape []types.Object
 	loopDepth int
 	ctxStack []*ctxFrame // enclosing loops / switches / selects
+	deferred map[string]bool // mutexes with a deferred Unlock / RUnlock
+	litDepth int             // inside an inlined function literal
 }
 
 type ctxFrame struct {
@@ -817,6 +819,7 @@ func (w *walker) call(c *ast.CallExpr, isGo, isDefer bool) {
 			ln := w.lockName(recvExpr)
 			if isDefer {
 				if name == "Unlock" || name == "RUnlock" {
+					w.deferred[ln] = true
 					return // held to the end of the function
 				}
 				w.a.unk(w.fn, "deferred "+name+" at "+w.a.posStr(c.Pos()))
@@ -1201,6 +1204,8 @@ func (w *walker) inlineLit(lit *ast.FuncLit) {
 	w.a.byLit[lit] = w.fn // accesses are attributed to the enclosing function
 	saveCtx := w.ctxStack
 	w.ctxStack = nil
+	w.litDepth++
+	defer func() { w.litDepth-- }()
 	w.block(lit.Body.List)
 	// a return inside the literal only leaves the literal; literals in this role are lock-balanced
 	w.ctxStack = saveCtx
@@ -1364,6 +1369,7 @@ func (w *walker) stmt(s ast.Stmt) (term bool) {
 			w.expr(r, mRead)
 		}
 		w.pendingEscape = w.pendingEscape[:0] // returning a fresh object hands it to the caller, nothing follows
+		w.checkExit(x.Pos())
 		return true
 	case *ast.BranchStmt:
 		switch x.Tok {
@@ -1507,6 +1513,22 @@ func (w *walker) stmt(s ast.Stmt) (term bool) {
 	return false
 }
 
+// checkExit: a function must leave with the lock state it entered with (apart from deferred unlocks);
+// callers' locksets are computed from entry states only, so anything else would be invisible to them
+func (w *walker) checkExit(pos token.Pos) {
+	if w.litDepth > 0 {
+		return
+	}
+	for _, k := range sortedKeys(unionSet(w.eff.heldX, w.eff.heldS)) {
+		if !w.deferred[k] {
+			w.a.unk(w.fn, fmt.Sprintf("returns holding %s at %s", k, w.a.posStr(pos)))
+		}
+	}
+	for _, k := range sortedKeys(unionSet(w.eff.relX, w.eff.relS)) {
+		w.a.unk(w.fn, fmt.Sprintf("releases %s which it did not acquire, at %s", k, w.a.posStr(pos)))
+	}
+}
+
 // assignedValue walks a right-hand side; a bare fresh identifier stored somewhere escapes
 func (w *walker) assignedValue(r ast.Expr) { w.expr(r, mRead) }
 
@@ -1646,14 +1668,16 @@ func (w *walker) clausesSelect(list []ast.Stmt) bool {
 // analysis driver
 
 func (a *accessAnalysis) walkFn(n *fnNode) {
-	w := &walker{a: a, fn: n, eff: newEff(), fresh: map[types.Object]bool{}, everFresh: map[types.Object]bool{}}
+	w := &walker{a: a, fn: n, eff: newEff(), fresh: map[types.Object]bool{}, everFresh: map[types.Object]bool{}, deferred: map[string]bool{}}
 	defer func() {
 		if r := recover(); r != nil {
 			a.unk(n, fmt.Sprintf("analysis panic: %v", r))
 		}
 	}()
 	if n.body != nil {
-		w.block(n.body.List)
+		if !w.block(n.body.List) {
+			w.checkExit(n.body.Rbrace)
+		}
 	}
 	for _, e := range n.exprs {
 		w.expr(e, mRead)
